@@ -532,10 +532,9 @@ def xray2d_weights(c, angle):
     return inds, w, Px
 
 
-def r_XRayTransform2D(c, coded=False):
-    """documented boxcar model: pixel p contributes w to bin I and 1 - w to bin I + 1, each when the bin is on the
-    detector.  coded=True: the pinned scatter, where a NEGATIVE first bin also drops the second one (a pixel whose
-    footprint straddles the left detector edge contributes nothing: known finding xray-left-edge-drop)"""
+def r_XRayTransform2D(c):
+    """documented boxcar model: pixel p contributes w to bin I and 1 - w to bin I + 1, each when that bin is on the
+    detector (the integral of the pixel's boxcar over the bin)"""
     sh, dx, x0, ny, y0 = xray2d_geometry(c)
     npx = prod(sh)
     rows = []
@@ -545,7 +544,7 @@ def r_XRayTransform2D(c, coded=False):
         for p, (I, wt) in enumerate(zip(inds.ravel(), w.ravel())):
             if 0 <= I < ny:
                 A[I, p] += wt
-            if 0 <= I + 1 < ny and (I >= 0 or not coded):
+            if 0 <= I + 1 < ny:
                 A[I + 1, p] += 1 - wt
         rows.append(A)
     return np.vstack(rows)
@@ -578,24 +577,15 @@ def xray3d_left_edges(c):
 
 
 def xray3d_integer_edge(c, eps=1e-9):
-    """some footprint has its left edge on a detector-bin edge (known finding xray3d-integer-edge)"""
+    """some footprint has its left edge on a detector-bin edge (regression class of the fixed finding xray3d-integer-edge)"""
     le = xray3d_left_edges(c)
     return bool(np.any(np.abs(le - np.round(le)) < eps))
 
 
-def xray3d_left_edge_partial(c):
-    """some footprint starts in bin -1 on an axis and reaches into bin 0 (partially visible at the top / left detector
-    edge): the pinned code drops it entirely (known finding xray-left-edge-drop)"""
-    le = xray3d_left_edges(c)
-    return bool(np.any(np.floor(le) == -1))
-
-
-def r_XRayTransform3D(c, couple_negative=False):
+def r_XRayTransform3D(c):
     """documented model, from the geometry only: voxel (i,j,k) has its centre projected to M (i+1/2, j+1/2, k+1/2) + t;
     its footprint is the square of side 1/2 centred there; detector pixel (a, b) covers [a, a+1) x [b, b+1) and receives
-    the fraction of the footprint's area that lies in it (computed as a product of interval overlaps).
-    couple_negative=True: the pinned scatter, where a negative first index on an axis drops both neighbours on that
-    axis (known finding xray-left-edge-drop)"""
+    the fraction of the footprint's area that lies in it (computed as a product of interval overlaps)"""
     sh, det = c["shape"], c["det_shape"]
     nvox = prod(sh)
     w = 0.5
@@ -614,8 +604,6 @@ def r_XRayTransform3D(c, couple_negative=False):
         A = np.zeros((prod(det), nvox))
         for p, ijk in enumerate(itertools.product(*[range(s) for s in sh])):
             left = Mv @ (np.asarray(ijk) + 0.5) + t - w / 2
-            if couple_negative and (np.floor(left[0]) < 0 or np.floor(left[1]) < 0):
-                continue
             for a, wa in overlaps(left[0], det[0]).items():
                 for b, wb in overlaps(left[1], det[1]).items():
                     A[a * det[1] + b, p] += wa * wb
